@@ -368,12 +368,17 @@ def run(tier, seed):
     cases = []
     bases = [(BIRDS_SIG, dict(BIRDS), list(BIRDS_POOL), True)]
     skipped = 0
-    while len(bases) <= n_bases and skipped < 50 * n_bases:
+    weak_only = 0
+    while len(bases) <= n_bases and skipped < 200 * n_bases:
         sig, conds = s3_base(rng, consts=0.06)
-        # bases every mode refuses are skipped here (the per-mode refusal is detected again in the worker)
-        if consistency(BeliefBase(list(sig), dict(conds), "c13"), "z3", True)[0] is False:
-            skipped += 1
-            continue
+        bb = BeliefBase(list(sig), dict(conds), "c13")
+        # bases every mode refuses are skipped here (the per-mode refusal is detected again in the worker);
+        # bases only the extended mode accepts make up at most a third
+        if consistency(bb, "z3", False)[0] is False:
+            if consistency(bb, "z3", True)[0] is False or weak_only >= n_bases // 3:
+                skipped += 1
+                continue
+            weak_only += 1
         bases.append((sig, texts_of(conds), _pool_for(rng, sig, conds), len(bases) % par_every == 0))
     for sig, ctexts, pool, par in bases:
         for weakly in (False, True):
@@ -403,7 +408,8 @@ def run(tier, seed):
     ]
     res["extra"] = {
         "cases": res["cases"],
-        "bases_skipped_as_inconsistent": skipped,
+        "bases_skipped": skipped,
+        "bases_accepted_in_extended_mode_only": weak_only,
         "carved_out_duplicate_texts": sum(1 for v in vs if v.get("carve_out") == "duplicate-texts"),
         "other_violations": sum(1 for v in vs if not v.get("carve_out")),
     }
